@@ -365,3 +365,164 @@ pub async fn h3_session(peer: SocketAddr, sni: &str, requests: &[H3Request], lim
     flush(&socket, &mut conn).await;
     (out, resps)
 }
+
+/// What an HTTP/3 tunnel client does after its CONNECT was answered 200
+#[derive(Debug, Clone)]
+pub struct TunnelScript {
+    /// pieces written into the tunnel, one per round of the event loop
+    pub up: Vec<Vec<u8>>,
+    /// finish the request stream after the last piece
+    pub fin: bool,
+}
+
+#[derive(Debug, Default, Clone)]
+pub struct TunnelSeen {
+    pub status: Option<u16>,
+    pub down: Vec<u8>,
+    /// the endpoint finished the response stream
+    pub ended: bool,
+    pub reset: bool,
+    pub up_sent: usize,
+    pub fin_sent: bool,
+    pub error: Option<String>,
+}
+
+/// CONNECT over a fresh QUIC connection, then the script; keeps the connection alive (and keeps
+/// reading) until `stop` fires or `limit` passes.
+pub async fn h3_tunnel(
+    peer: SocketAddr,
+    sni: &str,
+    headers: Vec<(Vec<u8>, Vec<u8>)>,
+    script: TunnelScript,
+    mut stop: tokio::sync::oneshot::Receiver<()>,
+    limit: Duration,
+) -> TunnelSeen {
+    let mut seen = TunnelSeen::default();
+    let socket = match UdpSocket::bind("127.0.0.1:0").await {
+        Ok(s) => s,
+        Err(e) => {
+            seen.error = Some(format!("bind: {}", e));
+            return seen;
+        }
+    };
+    let mut scid = [0u8; quiche::MAX_CONN_ID_LEN];
+    let _ = ring::rand::SecureRandom::fill(&ring::rand::SystemRandom::new(), &mut scid);
+    let mut config = quiche::Config::new(quiche::PROTOCOL_VERSION).unwrap();
+    config.verify_peer(false);
+    config.set_max_idle_timeout(8000);
+    config.set_max_recv_udp_payload_size(MAX_UDP_PAYLOAD);
+    config.set_max_send_udp_payload_size(MAX_UDP_PAYLOAD);
+    config.set_initial_max_data(1_000_000);
+    config.set_initial_max_stream_data_bidi_local(200_000);
+    config.set_initial_max_stream_data_bidi_remote(200_000);
+    config.set_initial_max_stream_data_uni(200_000);
+    config.set_initial_max_streams_bidi(100);
+    config.set_initial_max_streams_uni(100);
+    let _ = config.set_application_protos(&[b"h3"]);
+    let mut conn = match quiche::connect(Some(sni), &quiche::ConnectionId::from_ref(&scid), socket.local_addr().unwrap(), peer, &mut config) {
+        Ok(c) => c,
+        Err(e) => {
+            seen.error = Some(format!("connect: {}", e));
+            return seen;
+        }
+    };
+    flush(&socket, &mut conn).await;
+    let deadline = Instant::now() + limit;
+    while !conn.is_established() {
+        if conn.is_closed() || Instant::now() > deadline {
+            seen.error = Some("QUIC handshake did not complete".into());
+            return seen;
+        }
+        wait_io(&socket, &conn).await;
+        read_out(&socket, &mut conn);
+        conn.on_timeout();
+        flush(&socket, &mut conn).await;
+    }
+    let mut h3_conn = match h3::Connection::with_transport(&mut conn, &h3::Config::new().unwrap()) {
+        Ok(c) => c,
+        Err(e) => {
+            seen.error = Some(format!("h3: {}", e));
+            return seen;
+        }
+    };
+    let hdrs: Vec<h3::Header> = headers.iter().map(|(n, v)| h3::Header::new(n, v)).collect();
+    let sid = match h3_conn.send_request(&mut conn, &hdrs, false) {
+        Ok(id) => id,
+        Err(e) => {
+            seen.error = Some(format!("send_request: {}", e));
+            return seen;
+        }
+    };
+    flush(&socket, &mut conn).await;
+    let mut pending: std::collections::VecDeque<Vec<u8>> = script.up.iter().cloned().collect();
+    let mut off = 0usize;
+    let mut buf = vec![0u8; 65535];
+    loop {
+        if stop.try_recv().is_ok() || Instant::now() > deadline || conn.is_closed() {
+            break;
+        }
+        read_out(&socket, &mut conn);
+        loop {
+            match h3_conn.poll(&mut conn) {
+                Ok((id, h3::Event::Headers { list, .. })) if id == sid => {
+                    seen.status = list.iter().find(|h| h.name() == b":status").and_then(|h| std::str::from_utf8(h.value()).ok().and_then(|s| s.parse().ok()));
+                }
+                Ok((id, h3::Event::Data)) if id == sid => {
+                    while let Ok(n) = h3_conn.recv_body(&mut conn, sid, &mut buf) {
+                        if n == 0 {
+                            break;
+                        }
+                        seen.down.extend_from_slice(&buf[..n]);
+                    }
+                }
+                Ok((id, h3::Event::Finished)) if id == sid => seen.ended = true,
+                Ok((id, h3::Event::Reset(_))) if id == sid => {
+                    seen.ended = true;
+                    seen.reset = true;
+                }
+                Ok(_) => {}
+                Err(h3::Error::Done) => break,
+                Err(e) => {
+                    seen.error.get_or_insert(format!("h3 poll: {}", e));
+                    break;
+                }
+            }
+        }
+        // upload, once the tunnel is open
+        if seen.status == Some(200) && !seen.fin_sent {
+            while let Some(front) = pending.front() {
+                match h3_conn.send_body(&mut conn, sid, &front[off..], false) {
+                    Ok(n) => {
+                        off += n;
+                        seen.up_sent += n;
+                        if off >= front.len() {
+                            pending.pop_front();
+                            off = 0;
+                            break; // one piece per round
+                        } else {
+                            break; // blocked by flow control
+                        }
+                    }
+                    Err(h3::Error::Done) => break,
+                    Err(e) => {
+                        seen.error.get_or_insert(format!("send_body: {}", e));
+                        pending.clear();
+                        break;
+                    }
+                }
+            }
+            if pending.is_empty() && script.fin && !seen.fin_sent {
+                if h3_conn.send_body(&mut conn, sid, &[], true).is_ok() {
+                    seen.fin_sent = true;
+                }
+            }
+        }
+        conn.on_timeout();
+        flush(&socket, &mut conn).await;
+        let t = conn.timeout().unwrap_or(Duration::from_millis(5)).min(Duration::from_millis(5));
+        let _ = tokio::time::timeout(t, socket.readable()).await;
+    }
+    let _ = conn.close(true, 0, b"");
+    flush(&socket, &mut conn).await;
+    seen
+}
